@@ -81,13 +81,18 @@ ASSUMPTIONS = [
     "are judged only for cases that hold with their full environment",
     "(c) in positions that re-emit the expression (def defaults, filter arguments) a failure is left to part (a) when the re-emitted "
     "text of that expression is already wrong there",
+    "(a) order-dependent, process-wide state of the re-emitter (equal constants of different types) is exercised in fresh child "
+    "interpreters, one per ordered pair; such a violation carries prelude=[] so that core.finish replays it isolated",
     "identifier spellings are fixed; VERIF_SEED only selects literal values; PYTHONHASHSEED=0 (set by ./run)",
 ]
 BOUNDS = {
     "quick": {
         "a": "depth 1-2 complete: 129 node shapes x every shape in each of the 132 child slots, in 5 positions (<%page args>, def default, "
-             "keyword-only def default, <%block args>, filter-call argument); 4 further filter-call argument kinds (k=E, *E, **E, mixed) at depth 1",
-        "b": "blocks <=2 statements depth <=2 over 11 of the 15 statement kinds; 23 of the 58 literal forms in every single hole; 27 layouts: "
+             "keyword-only def default, <%block args>, filter-call argument); 4 further filter-call argument kinds (k=E, *E, **E, mixed) at depth 1; "
+             "32 ordered pairs of equal-but-different constants (True/1/1.0/(1+0j), False/0/0.0/0j/-0.0), each in a fresh interpreter: in one "
+             "expression, in two defaults + two filter arguments of one template, in two templates compiled one after the other",
+        "b": "(<% %> in the body is followed by template text with an odd number of each quote character; every quick literal form also "
+             "inside ${ } with LF/CRLF, with and without such text after it) blocks <=2 statements depth <=2 over 11 of the 15 statement kinds; 23 of the 58 literal forms in every single hole; 27 layouts: "
              "15 margins (LF, code on the next line, <% %> in the body) + 2 margins x 3 other positions + 6 first-line/CRLF/TAB-unit variants",
         "c": "44 expression binders (12 of them: a name bound inside a lambda body and read as a free name later in the same expression) x 22 positions (8 spellings of the nested def, 6 of the free name for the declaration-order dimension), "
              "41 statement binders x 4 positions, 10 control-line binders; read inside, own name read outside, leaked name read outside; "
@@ -546,6 +551,98 @@ def a_case(path, node, st, seed, dedupe, shard=None):
             )
 
 
+# equal-but-different constants: 1 == True == 1.0 == (1+0j) and 0 == False == 0.0 == 0j hash alike; a table keyed by the
+# value confuses them, and which one wins depends on what the process re-emitted first.  Every ordered pair runs in a
+# fresh interpreter: inside one expression, in two defaults of one def, and in two templates compiled one after the other.
+CONSTANT_GROUPS = [["True", "1", "1.0", "(1+0j)"], ["False", "0", "0.0", "0j", "-0.0"]]
+
+
+def constant_pairs():
+    for g in CONSTANT_GROUPS:
+        for c1 in g:
+            for c2 in g:
+                if c1 != c2:
+                    yield c1, c2
+
+
+def a2_in_process(c1, c2):
+    """-> list of (arrangement, symptom, detail); to be called in a process that has re-emitted nothing yet"""
+    S = _state
+    env = S["env"]
+    cnt = S.setdefault("cnt", {"evaluations": 0})
+    out = []
+    # (1) one expression
+    E = "(%s, %s)" % (c1, c2)
+    f = a_run(E, ast.parse(E, mode="eval").body, a_positions(E), cnt)
+    for p, v in f.items():
+        out.append(("one-expression@" + p, v[0], v[1]))
+    # (2) two defaults of one def and two filter arguments of one template
+    tmpl = '<%%def name="two19(b19=%s, a19=%s)">[[${N19((b19, a19))}]]</%%def>${two19()}[[${0 | G19(%s)}]][[${0 | G19(%s)}]]' % (c1, c2, c1, c2)
+    want = [EV.N19((eval(c1), eval(c2))), G_native(c1, env), G_native(c2, env)]
+    cnt["evaluations"] += 1
+    stage, val, t = mako_run(tmpl, {}, env, imports=IMPORTS_DECL)
+    if stage != "ok":
+        out.append(("two-expressions-of-one-template", classify_exc(val), "%s: %s" % (exc_class(val), str(val)[:160])))
+    else:
+        got = _OBS_B.findall(val)
+        if got != want:
+            out.append(("two-expressions-of-one-template", "meaning", "type or value differs: native %s, rendered %s" % (want, got)))
+    # (3) two templates, one after the other
+    for i, c in enumerate((c1, c2)):
+        f = a_run(c, ast.parse(c, mode="eval").body, ["D", "F"], cnt)
+        for p, v in f.items():
+            out.append(("template-%d-of-two@%s" % (i + 1, p), v[0], v[1]))
+    return out
+
+
+def G_native(c, env):
+    return eval("G19(%s)(0)" % c, dict(env))
+
+
+def a2_isolated(c1, c2, seed):
+    """run a2_in_process in a fresh interpreter -> list, or None on a harness problem"""
+    import json
+    import subprocess
+    import sys
+
+    code = (
+        "import sys, json\nsys.path.insert(0, %r)\nfrom mc import core\ncore.bind_repo()\nfrom mc.props import c19\n"
+        "c19.setup(%d)\nprint('RESULT ' + json.dumps(c19.a2_in_process(%r, %r)))\n"
+    ) % (core.VERIF, seed, c1, c2)
+    envv = dict(os.environ, VERIF_REPO=os.path.abspath(core.REPO), PYTHONHASHSEED="0")
+    pr = subprocess.run([sys.executable, "-B", "-W", "ignore", "-c", code], capture_output=True, text=True, env=envv, timeout=300)
+    for line in pr.stdout.splitlines()[::-1]:
+        if line.startswith("RESULT "):
+            return json.loads(line[7:]), ""
+    return None, pr.stderr[-600:]
+
+
+def run_a2(job, st):
+    setup(job["seed"])
+    for c1, c2 in job["pairs"]:
+        res, err = a2_isolated(c1, c2, job["seed"])
+        if res is None:
+            st.extra.setdefault("harness_errors", []).append("constant-order child failed for %s,%s: %s" % (c1, c2, err))
+            continue
+        st.evaluations += 8
+        st.transitions += 8
+        st.states += 3
+        st.traces += 1
+        st.nontrivial += 3
+        st.oracles["a_constant_order"] += 3
+        if not res:
+            st.outcomes[("a", "holds", "equal-constants-of-different-type")] += 1
+            continue
+        sym = res[0][1]
+        sig = "reemit:equal-constants-of-different-type:%s" % sym
+        st.outcomes[("a", sig)] += 1
+        st.violation(
+            sig, {"part": "a2", "c1": c1, "c2": c2, "seed": job["seed"], "prelude": []},
+            "re-emission of equal constants of different types in one process: %s" % sym,
+            expected="each constant re-emitted with its own type: %s then %s" % (c1, c2), observed=res[:4],
+        )
+
+
 def run_a(job, st):
     S = setup(job["seed"])
     S["cnt"] = {"evaluations": 0}
@@ -607,6 +704,11 @@ def tree_key(node):
     return tuple(out)
 
 
+import re as _re
+
+_OBS_B = _re.compile(r"\[\[(.*?)\]\]", _re.S)
+
+
 def b_execute(tmpl, expected, counts):
     """-> None (holds) or (symptom, detail)"""
     from mako.lexer import Lexer
@@ -639,7 +741,8 @@ def b_execute(tmpl, expected, counts):
             elif expected.startswith("EXC:"):
                 res = ("value", "renders %s where the native block raises %s" % (val.strip()[:120], expected[4:]))
             else:
-                got = val.replace("\r\n", "\n").strip("\n")
+                m = _OBS_B.search(val)
+                got = m.group(1) if m else val.replace("\r\n", "\n").strip("\n")
                 if got != expected:
                     res = ("value", "variables differ: native %s, rendered %s" % (expected[:200], got[:200]))
             S["tree_b"][key] = res
@@ -852,9 +955,49 @@ def b_case(block, forms, layout, expected, lines, st, seed, counts):
         st.sample({"part": "b", "template": tmpl, "expected": expected, "result": res and res[0]})
 
 
+def b_expression_literals(job, st):
+    """every literal form inside ${ }, alone and followed by template text holding quote characters"""
+    S = _state
+    env = S["env"]
+    for name, pieces, comment in BL.FORMS:
+        if comment is not None or (job["tier"] == "quick" and name in QUICK_SKIP):
+            continue
+        try:
+            expected = EV.N19(eval(compile("\n".join(pieces), "<c19-literal>", "eval"), dict(env, n9=5)))
+        except SyntaxError as e:
+            st.extra.setdefault("harness_errors", []).append("literal form %s is not an expression: %s" % (name, e))
+            continue
+        for eol in ("\n", "\r\n"):
+            for tail in ("", " it's \"${'x'}"):
+                tmpl = "[[${N19(" + eol.join(pieces) + ")}]]" + tail + eol
+                st.evaluations += 1
+                st.transitions += 1
+                st.states += 1
+                st.traces += 1
+                st.nontrivial += 1
+                st.oracles["b_expression_literal"] += 1
+                stage, val, t = mako_run(tmpl, {"n9": 5}, env, imports=IMPORTS_DECL)
+                res = None
+                if stage != "ok":
+                    res = (("lexer-" if lexer_rejects(tmpl) else "") + classify_exc(val), "%s: %s" % (exc_class(val), str(val)[:200]))
+                else:
+                    m = _OBS_B.search(val)
+                    if not m or m.group(1) != expected:
+                        res = ("value", "native %s, rendered %s" % (expected[:160], val[:160]))
+                if res is None:
+                    st.outcomes[("b", "holds", "expression-literal")] += 1
+                    continue
+                sig = "literal-in-expression:form=%s:%s" % (name, res[0])
+                st.outcomes[("b", sig)] += 1
+                st.violation(sig, {"part": "bx", "template": tmpl, "expected": expected, "seed": job["seed"]},
+                             "string literal inside ${}: %s" % res[0], expected=expected, observed=list(res))
+
+
 def run_b(job, st):
     S = setup(job["seed"])
     counts = {"lex": 0, "compile": 0, "shared": 0}
+    if job["shard"] == 0 and job["forms"] == "single" and not job.get("min_n"):
+        b_expression_literals(job, st)
     sk = list(BL.skeletons(job["n"], job["d"]))
     if job["tier"] == "quick":  # statement kinds left to the thorough tier (each has a close relative in the quick set)
         sk = [b for b in sk if not (set(_kinds(b)) & QUICK_SKIP_KINDS)]
@@ -1375,6 +1518,9 @@ def plan(tier, seed):
             jobs.append({"part": "b", "n": 2, "d": 2, "layouts": "std", "forms": "single", "shard": s, "nshards": n, "seed": seed, "tier": tier})
     for s in range(n):
         jobs.append({"part": "a", "layer": "d12", "shard": s, "nshards": n, "seed": seed, "tier": tier})
+    pairs = list(constant_pairs())
+    for s in range(4):
+        jobs.append({"part": "a2", "pairs": pairs[s::4], "seed": seed, "tier": tier})
     nc = 8 if tier == "quick" else n
     for s in range(nc):
         jobs.append({"part": "c", "shard": s, "nshards": nc, "seed": seed, "tier": tier})
@@ -1387,7 +1533,9 @@ def run_job(job):
     st = Stats()
     t0 = time.time()
     try:
-        if job["part"] == "a":
+        if job["part"] == "a2":
+            run_a2(job, st)
+        elif job["part"] == "a":
             run_a(job, st)
         elif job["part"] == "b":
             run_b(job, st)
@@ -1416,6 +1564,18 @@ def replay(case):
         if fails:
             return False, "reproduced: %s -> %r" % (E, fails)
         return True, "holds: %s" % E
+    if case["part"] == "a2":
+        # meaningful only in a process that has re-emitted nothing yet (core.finish replays it isolated: prelude = [])
+        res = a2_in_process(case["c1"], case["c2"])
+        if res:
+            return False, "reproduced: %r" % (res[:3],)
+        return True, "holds"
+    if case["part"] == "bx":
+        stage, val, t = mako_run(case["template"], {"n9": 5}, S["env"], imports=IMPORTS_DECL)
+        m = _OBS_B.search(val) if stage == "ok" else None
+        if stage != "ok" or not m or m.group(1) != case["expected"]:
+            return False, "reproduced: %s %r" % (stage, str(val)[:200])
+        return True, "holds"
     if case["part"] == "b":
         env = dict(S["env"])
         src = BL.PREAMBLE + "\n" + case["native"] + "\n__r19 = " + BL.OBSERVE + "\n"
